@@ -52,17 +52,20 @@ static inline void *ir2c_new(u64 n) { __CPROVER_assert(n <= IR2C_MAXALLOC, "allo
 #endif
    char *p = malloc(IR2C_MAXALLOC); __CPROVER_assume(p != 0); return p + ((IR2C_MAXALLOC - n) & ~(u64)15); }
 #define IR2C_NEW_TYPED(T, n) ((u8*)ir2c_new(n))
+#define IR2C_NEW_COOKIE(T, n, c) ((u8*)ir2c_new(n))
 static inline void ir2c_delete(void *p) { if (p) free((char*)p - __CPROVER_POINTER_OFFSET(p)); }
 #else
 static inline void *ir2c_new(u64 n) { void *p = malloc(n); __CPROVER_assume(p != 0); return p; }
 /* the element type is recovered from the bitcast that follows operator new; with an array-new cookie that is the cookie's type, so the size is rounded UP to whole elements */
 #define IR2C_NEW_TYPED(T, n) ((u8*)({ u64 n_ = (n); T *p_ = malloc(sizeof(T) * ((n_ + sizeof(T) - 1) / sizeof(T))); __CPROVER_assume(p_ != 0); p_; }))
-static inline void ir2c_delete(void *p) { free(p); }
+#define IR2C_NEW_COOKIE(T, n, c) ((u8*)({ u64 n_ = (n); u64 k_ = (n_ - (c)) / sizeof(T); T *o_ = malloc(sizeof(T) * (k_ + 1)); __CPROVER_assume(o_ != 0); &((u8*)o_)[sizeof(T) - (c)]; }))   /* an address-of expression: the caller's NULL test folds */
+static inline void ir2c_delete(void *p) { if (p) free((char*)p - __CPROVER_POINTER_OFFSET(p)); }
 #endif
 #define ir2c_crash() do { __CPROVER_assert(0, "MCRASH reached"); __CPROVER_assume(0); } while(0)
 #else
 static inline void *ir2c_new(u64 n) { ir2c_alloc_total += n; return malloc(n ? n : 1); }
 #define IR2C_NEW_TYPED(T, n) ((u8*)ir2c_new(n))
+#define IR2C_NEW_COOKIE(T, n, c) ((u8*)ir2c_new(n))
 static inline void ir2c_delete(void *p) { free(p); }
 #define ir2c_crash() abort()
 #endif
